@@ -9,6 +9,201 @@ def _c08_case(c):
     return {"raw": c}
 
 
+# ---- thorough tier: a sample of the correspondence cases is re-evaluated inside Coq with
+# vm_compute (same pseudo-random map orders as ml/c08_main.ml) and compared with what the
+# extracted runner printed: a cross-check of the extraction and of the OCaml driver.
+_VM_PRELUDE = """From Coq Require Import List Arith Bool.
+Import ListNotations.
+From Oras Require Import Model.OciIndex.
+Definition nodeT := (bool * bool * bool * list nat * option nat)%type.
+Definition u_get (u : list nodeT) (k : nat) : nodeT := nth k u (false, false, false, [], None).
+Definition u_mf u k := match u_get u k with (a, _, _, _, _) => a end.
+Definition u_dflt u k := match u_get u k with (_, a, _, _, _) => a end.
+Definition u_sk u k := match u_get u k with (_, _, a, _, _) => a end.
+Definition u_succs u k := match u_get u k with (_, _, _, a, _) => a end.
+Definition u_subj u k := match u_get u k with (_, _, _, _, a) => a end.
+Definition obs_all (u : list nodeT) (T : nat) (froms : list nat) (s : store) :=
+  (obs_tags T s, map (fun f => obs_tags_from T f s) froms, map (obs_resolve_tag s) (seq 0 T),
+   map (fun k => (obs_resolve_dig (u_dflt u) s k, obs_exists s k, obs_preds (length u) (u_succs u) s k))
+       (seq 0 (length u))).
+Definition vm_case (u : list nodeT) (T : nat) (froms : list nat) (cfg : config) (h : list (op * orders)) :=
+  let N := length u in
+  let sr := fold_left (fun acc oo =>
+              let r := step N (u_mf u) (u_succs u) (u_subj u) (u_sk u) true true true cfg (fst acc) oo in
+              (fst r, snd acc ++ [snd r])) h (store_empty, []) in
+  let s := fst sr in
+  (snd sr, obs_all u T froms s, obs_all u T froms (reopen N (u_mf u) (u_succs u) s), disk_valid s).
+"""
+
+
+def _vm_nats(xs):
+    return "[" + ";".join(str(x) for x in xs) + "]"
+
+
+class _Lcg:
+    def __init__(self, cid):
+        try:
+            n = int(cid[1:])
+        except ValueError:
+            n = 0
+        self.s = n * 7919 + 17
+
+    def rnd(self):
+        self.s = (self.s * 1103515245 + 12345) & 0x3fffffff
+        return (self.s >> 8) & 0xffff
+
+    def rlist(self, k):
+        return [self.rnd() % 13 for _ in range(k)]
+
+    def orders(self):
+        a, b, c = self.rlist(10), self.rlist(10), self.rlist(10)
+        d = [self.rlist(10) for _ in range(6)]
+        e = []
+        for _ in range(8):
+            x = self.rlist(5)
+            y = self.rlist(5)
+            e.append((x, y))
+        return "(mkOrd %s %s %s [%s] [%s])" % (
+            _vm_nats(a), _vm_nats(b), _vm_nats(c), ";".join(_vm_nats(x) for x in d),
+            ";".join("(%s,%s)" % (_vm_nats(x), _vm_nats(y)) for x, y in e))
+
+
+def _vm_ref(t):
+    return "None" if t == "-" else "(Some (%s %s))" % ("RTag" if t[0] == "t" else "RDig", t[1:])
+
+
+def _vm_obs(txt, n, T, froms):
+    """Parse one observation string of ml/c08_main.ml into the Coq value of obs_all."""
+    tags, tf, rt, nodes = [], {}, {}, {}
+    for f in txt.split(";"):
+        k, _, v = f.partition("=")
+        if k == "tags":
+            tags = [int(x) for x in v.split(",") if x]
+        elif k.startswith("tf"):
+            tf[int(k[2:])] = [int(x) for x in v.split(",") if x]
+        elif k.startswith("rt"):
+            a = v.split(".")
+            rt[int(k[2:])] = "(Some (mkDesc %s %s %s))" % (a[0], a[1], _vm_ref(a[2]))
+        elif k.startswith("k"):
+            rd, e, p = v.split(",")
+            i = int(k[1:])
+            if rd not in ("D", "B", "N"):
+                return None
+            rdv = {"D": "(DPlain %d)" % i, "B": "(DBlob %d)" % i, "N": "DNotFound"}[rd]
+            nodes[i] = "(%s, %s, %s)" % (rdv, "true" if e == "e1" else "false",
+                                         _vm_nats([int(x) for x in p[1:].split(".") if x]))
+    return "(%s, [%s], [%s], [%s])" % (
+        _vm_nats(tags), ";".join(_vm_nats(tf.get(f, [])) for f in froms),
+        ";".join(rt.get(t, "None") for t in range(T)), ";".join(nodes[i] for i in range(n)))
+
+
+def _vm_goal(cid, case, out):
+    p = case.split(" ")
+    if p[0] != "H":
+        return None
+    cfg = "(mkCfg %s %s)" % ("true" if p[2] == "1" else "false", "true" if p[3] == "1" else "false")
+    n, T = int(p[4]), int(p[5])
+    froms = [int(x) for x in p[6].split(",")]
+    nodes = []
+    for tok in p[7:7 + n]:
+        fl, su, sb = tok.split(":")
+        nodes.append("(%s, %s, %s, %s, %s)" % (
+            "true" if fl[0] == "m" else "false", "true" if fl[1] == "d" else "false",
+            "true" if fl[2] == "s" else "false",
+            _vm_nats([] if su == "-" else su.split(",")), "None" if sb == "-" else "(Some %s)" % sb))
+    ops = p[7 + n:]
+    res = out.split(" ")
+    if len(ops) != len(res) or not ops or ops[-1] != "C":
+        return None
+    lcg = _Lcg(cid)
+    hist, results = [], []
+    rmap = {"ok": "ROk", "exists": "RAlreadyExists", "notfound": "RNotFound",
+            "invalidref": "RInvalidReference", "hang": "RHang", "fuel": "ROutOfFuel"}
+    for op, r in zip(ops, res):
+        a = op[1:]
+        if op[0] in "CX":
+            continue
+        if op[0] == "P":
+            t = "OPush %s" % a
+        elif op[0] == "T":
+            k, x, an, rf = a.split(":")
+            t = "OTag (mkDesc %s %s %s) %s" % (k, x, "None" if an == "-" else "(Some (RTag %s))" % an,
+                                               "(RDig %s)" % k if rf == "d" else "(RTag %s)" % rf)
+        elif op[0] == "U":
+            t = "OUntag (RTag %s)" % a
+        elif op[0] == "V":
+            t = "OUntag (RDig %s)" % a
+        elif op[0] == "D":
+            t = "ODelete %s" % a
+        elif op[0] == "G":
+            t = "OGC"
+        elif op[0] == "S":
+            t = "OSave"
+        elif op[0] == "R":
+            t = "OReopen"
+        elif op[0] == "I":
+            t = "OInject %s" % a
+        else:
+            return None
+        if r not in rmap:
+            return None
+        hist.append("(%s, %s)" % (t, lcg.orders()))
+        results.append(rmap[r])
+    last = res[-1]
+    if not (last.startswith("C[") and last.endswith("]")):
+        return None
+    f = last[2:-1].split("|")
+    o1, o2 = _vm_obs(f[0], n, T, froms), _vm_obs(f[1], n, T, froms)
+    if o1 is None or o2 is None or f[1] != f[2] or f[1] != f[3]:
+        return None
+    return "vm_case [%s] %d %s %s [%s] = ([%s], %s, %s, %s)" % (
+        ";".join(nodes), T, _vm_nats(froms), cfg, ";\n  ".join(hist), ";".join(results), o1, o2,
+        "true" if f[4] == "v1" else "false")
+
+
+def _c08_vm_sample(d, tier, coq, build, want=300):
+    import os, subprocess
+    if tier != "thorough":
+        return []
+    outs = {}
+    with open(os.path.join(d, "model.txt")) as f:
+        for l in f:
+            i, _, o = l.rstrip("\n").partition(" ")
+            outs[i] = o
+    cands = []
+    with open(os.path.join(d, "cases.txt")) as f:
+        for l in f:
+            if len(l) <= 1500:
+                i, _, c = l.rstrip("\n").partition(" ")
+                if i in outs:
+                    cands.append((i, c))
+    step = max(1, len(cands) // want)
+    goals = []
+    for i, c in cands[::step]:
+        g = _vm_goal(i, c, outs[i])
+        if g:
+            goals.append((i, g))
+        if len(goals) >= want:
+            break
+    vdir = os.path.join(build, "vm")
+    os.makedirs(vdir, exist_ok=True)
+    vf = os.path.join(vdir, "C08_cases.v")
+    with open(vf, "w") as f:
+        f.write(_VM_PRELUDE)
+        for i, g in goals:
+            f.write("\n(* %s *)\nGoal %s.\nProof. vm_compute. reflexivity. Qed.\n" % (i, g))
+    p = subprocess.run(["coqc", "-R", coq, "Oras", "-w", "-notation-overridden", vf], cwd=vdir, timeout=1500,
+                       stdout=subprocess.PIPE, stderr=subprocess.STDOUT, text=True)
+    with open(os.path.join(d, "vm_sample.txt"), "w") as f:
+        f.write("%d goals rc=%d\n%s" % (len(goals), p.returncode, p.stdout[-3000:]))
+    if p.returncode != 0:
+        return ["vm_compute re-evaluation of %d sampled histories inside Coq disagrees with the extracted runner "
+                "(or does not type-check): %s" % (len(goals), p.stdout[-1200:])]
+    if len(goals) < want // 2:
+        return ["vm_compute sample too small: %d goals" % len(goals)]
+    return []
+
+
 CONFIG = {
     "properties_file": "Properties/C08.v",
     "proof_files": ["Proofs/OciIndex.v"],
@@ -17,6 +212,7 @@ CONFIG = {
     "ml_main": "c08_main.ml",
     "harness": "c08",
     "case_to_replay": _c08_case,
+    "post_model": _c08_vm_sample,
     "timeout_quick": 600,
     "timeout_search": 240,
     "timeout_thorough": 3000,
